@@ -31,7 +31,9 @@ fn applicable(shape: usize, api: usize, depth: usize, tier: Tier) -> bool {
     if shape == 10 && depth > 2000 {
         return false;
     }
-    if tier == Tier::Quick && depth > 30_000 {
+    // quick tier: depth 3*10^5 only for the pull iterator (cheap: linear text, no tree), which must
+    // not recurse at all
+    if tier == Tier::Quick && depth > 30_000 && api != 0 {
         return false;
     }
     true
